@@ -199,6 +199,11 @@ class Scheduler:
         self.lane_steps = {}
         self.interrupted = None     # (lane, step, "file:line") of the first cancellation
         self.cancelled = {}         # lane -> "file:line"
+        # lane -> "file:line" where an ordinary exception (MemoryError: a failed allocation) was
+        # raised inside the library line being executed ({"exc": "MemoryError"} in the spec);
+        # unlike SimInterrupt it is an Exception, so `except Exception` handlers of the library
+        # see it, and the lane goes on with its later calls
+        self.alloc_failed = {}
         # (code object, line) pairs of library code already executed in this interpreter: with
         # {"new_line": k} the lane is cancelled at the k-th line it is the first to execute
         # (cold paths: first-use initialisation, cache fills, rarely taken branches)
@@ -241,6 +246,9 @@ class Scheduler:
                 if due and self._eligible(frame) and self._cancellable(frame):
                     del self.interrupts[self.current]
                     where = "%s:%d" % (os.path.basename(frame.f_code.co_filename), frame.f_lineno)
+                    if intr.get("exc") == "MemoryError":
+                        self.alloc_failed[self.current] = where
+                        raise MemoryError("simulated allocation failure at step %d" % self.steps)
                     self.cancelled[self.current] = where
                     if self.interrupted is None:
                         self.interrupted = (self.current, self.steps, where)
